@@ -6,6 +6,7 @@ import UBidi.Props.C01Tie
 namespace UBidi.Props.C16Tie
 open UBidi
 
-theorem C16_tie_basedir_arms (c : BidiClass) : C01Tie.armOf Gen.Code.arms_get_base_direction_impl c = C01Tie.baseDirArm c := C01Tie.tie_basedir_arms c
+theorem C16_tie_basedir_arms (c d : BidiClass) :
+    (C01Tie.armOf Gen.Code.arms_get_base_direction_impl c = C01Tie.armOf Gen.Code.arms_get_base_direction_impl d) ↔ (C01Tie.baseDirArm c = C01Tie.baseDirArm d) := C01Tie.tie_basedir_arms c d
 
 end UBidi.Props.C16Tie
